@@ -42,7 +42,16 @@ def r1_weights(ctx):
             ctx.check("R1", "%s|weights-reach-the-solver|%s" % (qn, tag), ok, "least_squares' weights slot receives the validated weights (unchanged)",
                       bad="least_squares receives weights=%s" % (show(w)[:80] if isinstance(w, tuple) else "nothing (weights dropped)"), fn=qn)
     qn = "verde.vector.VectorSpline2D.fit"
-    with_w = [p for p in ctx.paths(qn) if p.exit == "return" and any(c[0] == "call" and callee(c) == "builtins.any" and v for c, v in p.conds)]
+    def weighted(p):
+        """the path on which some weight is given: `any(w is not None ...)` held, or `all(w is None ...)` did not"""
+        for c, v in p.conds:
+            if c[0] == "call" and callee(c) in ("builtins.any", "builtins.all") and any(x[0] == "cmp" and x[1] in ("is", "isnot") and x[3] == NONE for x in walk(c) if isinstance(x, tuple) and x):
+                positive = any(x[0] == "cmp" and x[1] == "isnot" for x in walk(c) if isinstance(x, tuple) and x)
+                if callee(c) == "builtins.any":
+                    return v if positive else None          # any(w is None): mixed case, not the documented test
+                return (not v) if not positive else None    # all(w is None) False  ==  some weight given
+        return None
+    with_w = [p for p in ctx.paths(qn) if p.exit == "return" and weighted(p)]
     ctx.check("R1", qn + "|a-weighted-path-exists", True if with_w else False, "given weights select a path on which they are concatenated and passed on",
               bad="no path passes weights to the solver: weights are ignored", fn=qn)
     for p in ctx.paths(qn):
@@ -50,10 +59,7 @@ def r1_weights(ctx):
             continue
         cfi = c01.cfi_of(p)
         ls = [e.data[0] for e in p.events if e.kind == "call" and callee(e.data[0]) == LS]
-        hasw = None
-        for c, v in p.conds:
-            if c[0] == "call" and callee(c) == "builtins.any":
-                hasw = v
+        hasw = weighted(p)
         tag = "%s,%s" % ("weights" if hasw else "noweights", "data-forces" if lookup(p.decided, ("cmp", "is", Q.self_attr("force_coords"), NONE)) else "given-forces")
         if cfi is None or len(ls) != 1:
             ctx.add("R1", "%s|structure|%s" % (qn, tag), "UNDECIDED", "expected validation and one solve", fn=qn)
